@@ -79,6 +79,11 @@ CLAIMS = {
   text="Exploration: every token sequence up to length 3 (thorough 4) over a 40-token alphabet; well-formed programs of bounded depth whose accessors come from all method/field names reachable by reflection from *Document plus type-following chains that mostly evaluate to values; documented examples under token mutations; random bytes; on empty, tiny and family documents and with two documents; every value goes through all five formatters; a sample runs through the built 'gedcom query'. Oracle: ParseString gives exactly one of engine/error, Evaluate and every Formatter.Write return; recovered panics are classified by value and innermost frame and a run keeps every distinct signature; stack overflows are caught through the breadcrumb of the dying child; a 60 s watchdog reports hangs. Thorough adds a coverage-guided native fuzz target.",
   note="A fresh document per evaluation. Random-byte queries are bounded to 256 bytes (quadratic tokenizer). A panic that the engine recovers and returns as an error counts as an error.",
   design="6.15"),
+ "C16": dict(
+  technique="differential PBT (rapid): typed query ASTs evaluated by the engine vs a reflection-free reference interpreter that calls the Go API directly; metamorphic relations; exhaustive operator table",
+  text="Exploration: well-typed programs (accessor chains over ten node/value types with nullability tracking, First/Last/Length/Only/Combine/NodesWithTagPath, objects, variables, all six operators) are generated as ASTs, printed, evaluated by the engine on random family graphs and compared as normalised JSON with a reference interpreter written with ordinary loops over direct Go API calls; determinism of re-parsing and engine reuse; metamorphic relations (variable inlining, E | Length, Combine(E,E) | Length, First/Last length and partition at k in {0,1,n-1,n,n+1}); every ordered pair of 24 constants under all six operators against the documented comparison rule, negation and trichotomy (exhaustive). One finding class (C16-F1: First/Last of an empty list) is excluded and counted.",
+  note="Trusted: the reference interpreter (about 150 lines) and the typed accessor table; numeric = [0-9]+(.[0-9]+)?; null and [] are the same empty result; clock-reading accessors are not generated.",
+  design="6.16"),
  "C20": dict(
   technique="model-based PBT (rapid): warnings oracle evaluated on generated facts (day numbers) vs Document.Warnings(), metamorphic record/child reordering, CLI line count",
   text="Exploration: family graphs with exact dates are generated so that each warning condition is met or not met, with the boundaries that whole days decide generated exactly (sibling gaps 0/1/2/3 days, child born the day before/of/after a parent's birth, later-group events the day before/of an earlier-group event) and margins only around the approximate thresholds (16 and 100 years, 9 months). The expected multiset of (kind, people, dates) is computed from the blueprint alone and must equal the typed projection of Document.Warnings() (name, context, people named in the message), also after reversing records and children; the built 'gedcom warnings' binary must print exactly one line per warning.",
